@@ -1,4 +1,5 @@
 import Verif.Model.AcmeAuth
+import Verif.Generated.AcmeRoutes
 /-!
   C12 — ACME requests are authenticated, replay-protected and confined to their account.
 
@@ -416,9 +417,17 @@ theorem request_honoured_only_if {sel : Sel} {pag : Bool} {rq : Req} {w w' : Wor
         simpa using this.symm
 /-! ## the route table -/
 
-/-- **routes_guarded** (table closed by evaluation; the table is to be regenerated from
-    acme/api/handler.go). -/
+/-- **routes_guarded** (table closed by evaluation) for the copy of the table the driver uses. -/
 theorem routes_guarded : tableGuarded pastedRoutes = true := by decide
+
+/-- **routes_generated** — the table regenerated by /verif/extract from acme/api/handler.go on this
+    run converts (every name known) to exactly the table above; so `routes_guarded` and everything
+    derived from it is about the route registrations of the current source. -/
+theorem routes_generated : ofGenerated Verif.Generated.AcmeRoutes.routes = some pastedRoutes := by decide
+
+/-- **routes_guarded_generated** — stated directly on the regenerated table. -/
+theorem routes_guarded_generated :
+    (ofGenerated Verif.Generated.AcmeRoutes.routes).map tableGuarded = some true := by decide
 
 theorem guarded_row {rs : List Route} (hg : tableGuarded rs = true) {r : Route} (hr : r ∈ rs) :
     (r.method = .POST → ∃ h pag, r.handler = .h h ∧ r.chain = guardedChain (requiredSel h) pag) ∧
